@@ -527,30 +527,33 @@ struct bc_task {
     };
     std::coroutine_handle<promise_type> h;
 };
-enum { BC_RESOLVE_DISCARD = 0, BC_RESOLVE_AWAIT, BC_PUSH_DISCARD, BC_PUSH_AWAIT, BC_YIELD, BC_NKINDS };
+enum { BC_RESOLVE_DISCARD = 0, BC_RESOLVE_AWAIT, BC_PUSH_DISCARD, BC_PUSH_AWAIT, BC_YIELD, BC_UNLOCK_DISCARD, BC_UNLOCK_AWAIT, BC_NKINDS };
 struct bc_step { int kind; int k; };
 struct bc_world {
     static constexpr int NF = 8;
     cocls::future<int> f[NF]; std::optional<cocls::promise<int>> p[NF];
     cocls::queue<int> q;
-    int ran[2 * NF] = {}, expect[2 * NF] = {}; bool queued[2 * NF] = {}; // 0..NF-1 future waiters, NF.. queue poppers
+    static constexpr int NM = 3, NID = 2 * NF + NM;
+    cocls::mutex mx[NM]; std::optional<cocls::mutex::ownership> held[NM]; bool has_locker[NM] = {}; // mutexes held by the bare coroutine, one coroutine waiting for each
+    int ran[NID] = {}, expect[NID] = {}; bool queued[NID] = {}; // 0..NF-1 future waiters, NF.. queue poppers, 2NF.. lock waiters
     bool has_waiter[NF] = {};
     std::deque<int> poppers; int npoppers = 0; // waiting pops in arrival order (model)
     int awaits = 0, continues = 0, driver_continues = 0; bool finished = false;
     bool coro_mode = false;
     std::string err;
     void made_ready(int id) { if (coro_mode) queued[id] = true; else expect[id]++; }
-    void drain() { for (int i = 0; i < 2 * NF; i++) if (queued[i]) { queued[i] = false; expect[i]++; } }
+    void drain() { for (int i = 0; i < NID; i++) if (queued[i]) { queued[i] = false; expect[i]++; } }
     void check(const char *after) {
         if (!err.empty()) return;
-        for (int i = 0; i < 2 * NF; i++) if (ran[i] != expect[i]) {
-            err = std::string("after ") + after + ": " + (i < NF ? "waiter of future " + std::to_string(i) : "waiting pop #" + std::to_string(i - NF)) + " continued " + std::to_string(ran[i]) + " times, expected " + std::to_string(expect[i]) + (coro_mode ? " (driver runs inside the temporary ready queue)" : " (no ready queue active)");
+        for (int i = 0; i < NID; i++) if (ran[i] != expect[i]) {
+            err = std::string("after ") + after + ": " + (i < NF ? "waiter of future " + std::to_string(i) : i < 2 * NF ? "waiting pop #" + std::to_string(i - NF) : "coroutine waiting for mutex " + std::to_string(i - 2 * NF)) + " continued " + std::to_string(ran[i]) + " times, expected " + std::to_string(expect[i]) + (coro_mode ? " (driver runs inside the temporary ready queue)" : " (no ready queue active)");
             return;
         }
     }
 };
 inline cocls::async<void> bc_waiter(bc_world &W, int k) { int v = co_await W.f[k]; if (v != 100 + k && W.err.empty()) W.err = "waiter received a wrong value"; W.ran[k]++; }
 inline cocls::async<void> bc_popper(bc_world &W, int id) { cocls::future<int> f = W.q.pop(); bool hv = co_await f.has_value(); (void)hv; W.ran[bc_world::NF + id]++; }
+inline cocls::async<void> bc_locker(bc_world &W, int m) { auto own = co_await W.mx[m].lock(); W.ran[2 * bc_world::NF + m]++; } // releases at its end
 inline bc_task bc_driver(bc_world &W, const std::vector<bc_step> &steps, std::string &trace) {
     W.driver_continues++;
     for (size_t i = 0; i < steps.size() && W.err.empty(); i++) {
@@ -592,6 +595,23 @@ inline bc_task bc_driver(bc_world &W, const std::vector<bc_step> &steps, std::st
             }
             break;
         }
+        case BC_UNLOCK_DISCARD: case BC_UNLOCK_AWAIT: {
+            int m = st.k % bc_world::NM;
+            if (!W.held[m]) break;
+            bool had = W.has_locker[m];
+            if (had) { W.made_ready(2 * bc_world::NF + m); W.has_locker[m] = false; }
+            if (st.kind == BC_UNLOCK_DISCARD) { trace += "release(" + std::to_string(m) + ") "; W.held[m]->release(); W.held[m].reset(); }
+            else {
+                trace += "co_await release(" + std::to_string(m) + ") ";
+                cocls::suspend_point<void> sp = W.held[m]->release(); W.held[m].reset();
+                W.awaits++;
+                co_await sp;
+                W.continues++;
+                if (had) { W.drain(); W.coro_mode = true; }
+                if (W.continues != W.awaits && W.err.empty()) W.err = "bare coroutine continued " + std::to_string(W.continues) + " times for " + std::to_string(W.awaits) + " awaited suspend points";
+            }
+            break;
+        }
         default:
             trace += "yield ";
             co_await std::suspend_always{};
@@ -616,10 +636,11 @@ inline void bare_coroutine_programs(const vf::opts &o, vf::report &R, uint64_t p
         int np = (int)r.below(5);
         for (int i = 0; i < np; i++) { bc_popper(W, i).detach(); W.poppers.push_back(i); }
         W.npoppers = np;
+        for (int m = 0; m < bc_world::NM; m++) { W.held[m].emplace(W.mx[m].try_lock()); if (r.chance(2, 3)) { W.has_locker[m] = true; bc_locker(W, m).detach(); trace += " L" + std::to_string(m); } }
         trace += " poppers:" + std::to_string(np) + " | ";
         std::vector<bc_step> steps;
         int len = 2 + (int)r.below(14);
-        for (int i = 0; i < len; i++) { uint32_t x = r.below(100); bc_step st{x < 25 ? BC_RESOLVE_DISCARD : x < 55 ? BC_RESOLVE_AWAIT : x < 65 ? BC_PUSH_DISCARD : x < 80 ? BC_PUSH_AWAIT : BC_YIELD, (int)r.below(bc_world::NF)}; steps.push_back(st); }
+        for (int i = 0; i < len; i++) { uint32_t x = r.below(100); bc_step st{x < 20 ? BC_RESOLVE_DISCARD : x < 42 ? BC_RESOLVE_AWAIT : x < 50 ? BC_PUSH_DISCARD : x < 62 ? BC_PUSH_AWAIT : x < 70 ? BC_UNLOCK_DISCARD : x < 84 ? BC_UNLOCK_AWAIT : BC_YIELD, (int)r.below(bc_world::NF)}; steps.push_back(st); }
         bc_task t = bc_driver(W, steps, trace);
         int resumes = 0;
         while (!W.finished && W.err.empty() && resumes < 100) {
@@ -637,6 +658,7 @@ inline void bare_coroutine_programs(const vf::opts &o, vf::report &R, uint64_t p
             continue;
         }
         t.h.destroy();
+        for (int m = 0; m < bc_world::NM; m++) if (W.held[m]) { W.held[m]->release(); W.held[m].reset(); } // lockers still waiting get the mutex now and finish
         for (int k = 0; k < bc_world::NF; k++) W.p[k].reset(); // unresolved promises: their waiters are cancelled (exception escapes into the detached coroutine: swallowed by the library)
         bool nontrivial = W.awaits >= 1 && len >= 3;
         if (nontrivial) R.nontrivial_cases++;
